@@ -32,7 +32,8 @@ Section NoPanic.
 
   Lemma insert_nodes_no_panic d count values als ids : no_panic (insert_nodes rv d count values als ids).
   Proof.
-    unfold insert_nodes. pose proof (resolve_ids_no_panic d ids) as Hr.
+    unfold insert_nodes. destruct (fix_empty_alias rv && existsb _ als); [exact I|].
+    pose proof (resolve_ids_no_panic d ids) as Hr.
     destruct (resolve_ids rv d ids) as [query_ids|e|]; [|exact I|congruence].
     match goal with |- context [Nat.ltb ?x ?y] => destruct (Nat.ltb x y) end; [exact I|].
     destruct (negb (Nat.eqb (length query_ids) 0)).
@@ -63,13 +64,14 @@ Section NoPanic.
         pose proof (insert_edge_list_no_panic d p) as H; destruct (insert_edge_list d p) end; [exact I|exact I|contradiction].
   Qed.
 
-  Lemma insert_values_q_no_panic a acc q kvs : no_panic (insert_values_q a acc q kvs).
+  Lemma insert_values_q_no_panic a acc q kvs : no_panic (insert_values_q rv a acc q kvs).
   Proof.
     unfold insert_values_q. destruct (db_id a q) as [id|e].
     - destruct (insert_values_id a acc id kvs). exact I.
     - destruct q as [id|al].
       + destruct (id =? 0); [|exact I]. destruct (insert_values_new a acc None kvs). exact I.
-      + destruct (insert_values_new a acc (Some al) kvs). exact I.
+      + destruct (fix_empty_alias rv && _); [exact I|].
+        destruct (insert_values_new a acc (Some al) kvs). exact I.
   Qed.
 
   Lemma insert_values_no_panic d ids values : no_panic (insert_values rv d ids values).
